@@ -1,6 +1,6 @@
 ---- MODULE MC_SpectrumPair ----
 EXTENDS SpectrumPair
-OpsSmall == {<<"SetNFFT", 24>>, <<"SetNFFT", 33>>, <<"SetSampling", 2048>>, <<"SetSampling", 1024>>, <<"SetSides", "twosided">>, <<"SetSides", "default">>, <<"ReadPsd", 0>>}
-I1 == [data |-> 1, N |-> 16, dt |-> "real", nfft |-> 16, samp |-> 1024, sides |-> "onesided", scale |-> FALSE, detrend |-> "none", window |-> "hann", lag |-> 0, ar |-> 0, ma |-> 0]
-I2 == [data |-> 1, N |-> 16, dt |-> "real", nfft |-> 33, samp |-> 2048, sides |-> "onesided", scale |-> FALSE, detrend |-> "none", window |-> "hann", lag |-> 0, ar |-> 0, ma |-> 0]
+OpsSmall == {<<"SetNFFT", 24>>, <<"SetNFFT", 33>>, <<"SetSampling", 1048580>>, <<"SetSampling", 1048576>>, <<"SetSides", "twosided">>, <<"SetSides", "default">>, <<"ReadPsd", 0>>}
+I1 == [data |-> 1, N |-> 16, dt |-> "real", nfft |-> 16, samp |-> 1048576, sides |-> "onesided", scale |-> FALSE, detrend |-> "none", window |-> "hann", lag |-> 0, ar |-> 0, ma |-> 0]
+I2 == [data |-> 1, N |-> 16, dt |-> "real", nfft |-> 33, samp |-> 2097152, sides |-> "onesided", scale |-> FALSE, detrend |-> "none", window |-> "hann", lag |-> 0, ar |-> 0, ma |-> 0]
 ====
